@@ -1260,7 +1260,9 @@ class C19(Check):
             "(thorough) operations: parses that succeed or fail (kw / positional dict / positional dict + keyword arguments / __from__ / positional args), in-place "
             "mutation of objects reached through results, setattr, Schema.copy(), earlier roots passed back in as inputs, "
             "ending in a probe parse that is replayed on freshly built declarations (every case) and in a fresh interpreter "
-            "(a sample).  non-trivial = at least one successful parse filled a mutable default or returned a container; "
+            "(a sample); container types incl. deque/bytearray with strict and Lax length constraints; running Options per parse "
+            "(ignore_required, no_default, force_default, mode, collect_errors, data_first_search); declarations made in the "
+            "middle of the history (case-insensitive subclasses, variants).  non-trivial = at least one successful parse filled a mutable default or returned a container; "
             "distinct by the whole program")
     assumptions = ["object identity beyond the alias model (interned small tuples / empty frozensets) is not compared: only "
                    "list/set/dict/instance/__dict__/bytearray/deque objects carry identity labels",
